@@ -41,6 +41,10 @@ func GetProtocolSchema(protocol *ProtocolDefinition, symbolTable SymbolTable) *P
 
 			schema.Types = append(schema.Types, removeComments(t))
 
+			// follow the references of the definition as it is written to the schema: without its computed fields
+			self.VisitChildren(t)
+			return
+
 		case *SimpleType:
 			self.Visit(symbolTable.GetGenericTypeDefinition(t.ResolvedDefinition))
 			for _, typeArg := range t.ResolvedDefinition.GetDefinitionMeta().TypeParameters {
